@@ -350,6 +350,14 @@ class ScriptedPipeRelay(_RelayBook, PipeRelay):
             res = ['temp' if x == 'junk' else x for x in out[1]]
         else:
             res = [kind] * len(rc)
+        # what the oracle's bookkeeping sees is the EFFECTIVE outcome (what the processes did)
+        rec = [a for a in h.attempts if a['id'] == mid][-1]
+        if kind == 'other':
+            rec['outcome'] = ('other',)
+        elif self.per_recipient:
+            rec['outcome'] = ('map', tuple(res))
+        else:
+            rec['outcome'] = (res[0],)
         if kind == 'other':
             self.fake.script = ['oserror']
             h.emit((2, mid, (3,)))
@@ -1070,16 +1078,43 @@ def replay_run(ctx, case):
         return 1 if e.n else 0
     run = Run(_r.Random(0), c['cfg'], script=c['schedule'])
     try:
+        n_script = len(run.script)
         while run.script:
             print(run.step())
+        # the verdict of the oracles on this schedule, now
+        class _Echo2(object):
+            def __init__(self, inner):
+                self._c = inner
+                self.n = 0
+
+            def __getattr__(self, k):
+                return getattr(self._c, k)
+
+            def fail(self, key, case, what):
+                self.n += 1
+                print('ORACLE', key, '-', what)
+
+            def mismatch(self, kind, case, impl, model):
+                self.n += 1
+                print('MISMATCH', kind, 'impl:', impl, 'model:', model)
+        e2 = _Echo2(ctx)
+        keyp = str(case.get('key', '')).split(':')[0]
+        props = (keyp,) if keyp in ('c01', 'c03', 'c12') else ('c01', 'c03', 'c12')
+        run.script = None          # further choices (drain) are the harness' fixed ones
+        oracle(e2, run, dict(cfg=c['cfg']), props)
+        run.drain()
+        if 'c01' in props:
+            check_final(e2, run, dict(schedule=list(run.choices), cfg=c['cfg'], events=run.h.trace))
+        oracle(e2, run, dict(cfg=c['cfg']), props)
+        print('replayed %d choices: %d oracle failures' % (n_script, e2.n))
         for n, snap in run.h.marks[-1:]:
             print('state:', snap)
         print('attempts:', run.h.attempts)
         print('overlaps:', run.h.overlaps, 'resend:', run.h.resend, 'early:', run.h.early,
               'flush calls/returns:', run.h.flush_calls, run.h.flush_returns)
+        return 1 if e2.n else 0
     finally:
         run.close()
-    return 0
 
 
 def _pool_obs(h):
